@@ -41,7 +41,7 @@ def main(tier):
             rt = vlib.tlc(d, "StoreTrace", vlib.cfg_text(spec="TraceSpec", constants=c, invariants=["Report"], postcondition="TraceAccepted"), workers=1, timeout=3000)
             recs = [json.loads(x) for x in open(tr)]
             consumed = max(rt.distinct - 1, 0)
-            if rt.error or not rt.finished or consumed < len(recs):
+            if (rt.error or not rt.finished or consumed < len(recs)) and '"VIOL"' not in rt.out:
                 raise vlib.Infra("StoreTrace stopped at line %d of %d (%s): %s\n%s" % (consumed + 1, len(recs), mode, rt.error, rt.out[-1200:]))
             total += len(recs)
             okl += consumed
